@@ -93,7 +93,7 @@ const PAIRS: [&str; 19] = [
 /// the page's public suffix nor a parent domain down to it, and cover no page under co.uk / github.io.
 const PUBLIC_SUFFIX_FORMS: [&str; 6] = ["com", "co.uk", "~co.uk", "uk", "io", "github.io"];
 
-const PAGE_HOSTS: [&str; 16] = [
+const PAGE_HOSTS: [&str; 18] = [
     "user.github.io",
     "münchen.de",
     "straße.co.uk",
@@ -110,6 +110,9 @@ const PAGE_HOSTS: [&str; 16] = [
     "co.uk",
     "127.0.0.1",
     "deep.a.b.example.com",
+    // registrable domains that begin with their own public suffix (the suffix is cut off once)
+    "example.net.net",
+    "sub.example.com.au.com.au",
 ];
 
 const GH_RULES: [Option<&str>; 5] = [
